@@ -25,9 +25,9 @@ struct FloatC {
     x("g", g); x("a", a); x("b", b); x("oa", oa); x("ob", ob); x("op", op); x("n", n); x("expr", expr); x("type", type); x("cnum", cnum); x("cden", cden); x("xnum", xnum);
   }
 };
-enum Op { O_ADD, O_SUB, O_MUL, O_SCALE, O_DIV, O_LINCOMB, O_DX, O_X, O_EVAL, O_LINFORM, O_BILFORM, O_EXPR, O_COUNT };
+enum Op { O_ADD, O_SUB, O_MUL, O_SCALE, O_DIV, O_LINCOMB, O_DX, O_X, O_EVAL, O_LINFORM, O_BILFORM, O_EXPR, O_BILDIAG, O_COUNT };
 static const char *op_name(int o) {
-  static const char *n[] = {"a+b", "a-b", "a*b", "a*c", "a/c", "linearCombination", "Dx<n>", "X<n>", "evaluation", "LinearForm", "BilinearForm", "expression"};
+  static const char *n[] = {"a+b", "a-b", "a*b", "a*c", "a/c", "linearCombination", "Dx<n>", "X<n>", "evaluation", "LinearForm", "BilinearForm", "expression", "BilinearForm(s,s): one object, same-type operators of different state"};
   return o >= 0 && o < O_COUNT ? n[o] : "?";
 }
 
@@ -131,6 +131,8 @@ static Out run(const FloatC &c) {
       T x = mk<T>(c.xnum, 64);
       return out_scalar(a(x));
     }
+    case O_BILDIAG:  // a diagonal matrix element: ONE spline object on both sides, two operators of one C++ type with different state
+      return out_scalar(BilinearForm{(2.5f * bo::Dx<1>{}) / 7, (1.5f * bo::Dx<1>{}) / 3}(a, a));
     default: break;
   }
   auto f = make_spline<T, 1>(grid, c.b);
@@ -162,6 +164,7 @@ static Exact exact_result(const FloatC &c) {
   i64 cn = c.cnum == 0 ? 1 : c.cnum;
   R cr(cn, c.cden < 1 ? 1 : c.cden); cr.canonicalize();
   ex::NP ast = expr_ast((int)(c.expr % NEXPR)), ast2 = expr_ast((int)((c.expr % NEXPR + 3) % NEXPR));
+  if (c.op == O_BILDIAG) { using namespace ex; ast = DIV(SCALE(rq(5, 2), D(1)), rq(7)); ast2 = DIV(SCALE(rq(3, 2), D(1)), rq(3)); }
   switch (c.op) {
     case O_ADD: e.fn = ref::add(fa, fb); break;
     case O_SUB: e.fn = ref::sub(fa, fb); break;
@@ -182,6 +185,7 @@ static Exact exact_result(const FloatC &c) {
     }
     case O_LINFORM: e.scalar = true; e.value = ref::integral(ex::interp(ast, fa, {ff})); break;
     case O_BILFORM: e.scalar = true; e.value = ref::integral(ref::mul(ex::interp(ast, fa, {ff}), ex::interp(ast2, fb, {ff}))); break;
+    case O_BILDIAG: e.scalar = true; e.value = ref::integral(ref::mul(ex::interp(ast, fa, {ff}), ex::interp(ast2, fa, {ff}))); break;
     default: e.fn = ex::interp(ast, fa, {ff}); break;
   }
   return e;
@@ -253,6 +257,7 @@ static void float_T(const FloatC &c, vf::Obs &o) {
   i64 cn = c.cnum == 0 ? 1 : c.cnum;
   R cr(cn, c.cden < 1 ? 1 : c.cden); cr.canonicalize();
   ex::NP ast = expr_ast((int)(c.expr % NEXPR)), ast2 = expr_ast((int)((c.expr % NEXPR + 3) % NEXPR));
+  if (c.op == O_BILDIAG) { using namespace ex; ast = DIV(SCALE(rq(5, 2), D(1)), rq(7)); ast2 = DIV(SCALE(rq(3, 2), D(1)), rq(3)); }
   auto shadow_at = [&](size_t j) -> Sh {  // shadow coefficient array of a spline-valued result on absolute interval j
     Sh A = sh_abs(coef(c.a, oa, j)), B = sh_abs(coef(c.b, ob, j));
     R xm = absr((pts[j] + pts[j + 1]) / 2);
@@ -283,6 +288,7 @@ static void float_T(const FloatC &c, vf::Obs &o) {
         R h = (pts[j + 1] - pts[j]) / 2, xm = absr((pts[j] + pts[j + 1]) / 2);
         Sh A = sh_abs(coef(c.a, oa, j)), B = sh_abs(coef(c.b, ob, j)), F = sh_abs(coef(c.b, 1, j));
         if (c.op == O_LINFORM) S += sh_integral(sh_expr(ast, A, xm, F), h);
+        else if (c.op == O_BILDIAG) S += sh_integral(sh_mul(sh_expr(ast, A, xm, F), sh_expr(ast2, A, xm, F)), h);
         else S += sh_integral(sh_mul(sh_expr(ast, A, xm, F), sh_expr(ast2, B, xm, F)), h);
       }
     }
